@@ -120,7 +120,7 @@ func TestConstructors(t *testing.T) {
 			return ctorCase{Prefix: rapid.IntRange(0, 3).Draw(t, "prefix"), Kind: k, Input: in}
 		},
 		Check: checkCtor, Require: []string{"ed25519", "alias", "nft"},
-		Rule:  "4 prefixes x {Ed25519 from a public key, Alias / NFT from an output id}: Bech32 form = reference encoding of version||BLAKE2b hash, ParseBech32 of the lower- and upper-case form returns the same prefix and address; all non-trivial; distinct by (prefix, kind, input)",
+		Rule: "4 prefixes x {Ed25519 from a public key, Alias / NFT from an output id}: Bech32 form = reference encoding of version||BLAKE2b hash, ParseBech32 of the lower- and upper-case form returns the same prefix and address; all non-trivial; distinct by (prefix, kind, input)",
 	})
 }
 
